@@ -83,7 +83,7 @@ class C09(PoolCheck):
         return jcopy(histories.globals_signature(self.entries[item[0]].schema))
 
     def n_cases(self, tier):
-        return 900 if tier == 'quick' else 60000
+        return 900 if tier == 'quick' else 25000
 
     def gen_case(self, rng, index):
         key = rng.choice(self.keys)
